@@ -50,6 +50,10 @@ pub struct Script {
     pub post_create: Vec<Vec<Out>>,
     pub pre_recycle: Vec<Vec<Out>>,
     pub post_recycle: Vec<Vec<Out>>,
+    /// the k-th Manager::detach call made on behalf of a get() panics (a manager whose detach
+    /// misbehaves: the get() may panic with it, the pool must stay usable)
+    #[serde(default)]
+    pub detach_panic_at: Option<u8>,
 }
 
 /// Predicate shapes for `retain`.
